@@ -358,6 +358,25 @@ def check_slot_release(prog, r):
             r.ok("slot release @%d exactly under session_down" % fv.line(b))
         else:
             r.fail(fv.name, "slot-release-guard", "slot release / Idle report is guarded by %s (want: session_down only)" % ([show(g, 50) + str(sorted(l)) for g, l in gs]), fv.loc(b))
+    # the driver's teardown routes every ended connection through the FSM: sessions that end without the FSM having seen a
+    # SessionDown (OPEN rejected by the codec, validate_message errors, locally sent Cease) would otherwise leave their
+    # Connection in the slot, and every later connection of that direction is refused with CloseConnection
+    ak = prog.find(r"rustybgpd::event::apply_disconnect")
+    if len(ak) == 1:
+        av = view(prog, prog.body_key(ak[0]))
+        r.analysed(prog.name(ak[0]))
+        feeds = []
+        for b, t in av.calls(re.compile(r"rustybgpd::event::ConnArbiter::process$|rustybgpd::fsm::PeerFsm::process$")):
+            e = Renderer(av, depth=8, through_names=True).operand(t["args"][2], 8) if len(t["args"]) > 2 else None
+            if e is not None and ((e[0] == "agg" and e[2] == "Disconnected") or (e[0] == "const" and e[3] == "Disconnected")):
+                feeds.append(b)
+        if feeds and all(av.dominated_by_any(x, feeds) for x in av.returns()):
+            r.ok("apply_disconnect: Input::Disconnected is fed to the FSM for the ended role on every path")
+        else:
+            r.fail(prog.name(ak[0]), "disconnect-not-fed", "apply_disconnect does not feed Input::Disconnected to the FSM on every path: a session that ended without an FSM SessionDown "
+                   "(rejected OPEN, message validation error, local Cease) keeps its slot occupied and the neighbour can never reconnect in that direction", av.loc())
+    else:
+        r.unanalysable("apply_disconnect anchor matched %d" % len(ak))
     # occupied slot => CloseConnection
     oc = view(prog, prog.one(r"rustybgpd::fsm::PeerFsm::on_connected"))
     r.analysed(oc.name)
